@@ -149,8 +149,9 @@ PROPS["C05"] = {
 PROPS["C06"] = {
     "level": "proof",
     "prop_modules": ["Flounder.Props.C06", "Flounder.Props.C06Full", "Flounder.Props.C06Guard"],
+    "custom": [blackbox.step_after_timed],
     "budget": {"quick": [("c06", 12)], "thorough": [("c06", 800)], "search": [("c06", 1600)]},
-    "rule": "for small-tree positions: a deadline at EVERY node count 1..total (exhaustive when the completed search has <= 120 nodes, sampled otherwise), expressed both as node budget and as poll index; 1-3 interrupted searches, then every record left in the table for the root and its successors audited against minimax (s.ttclaim), a later completed search judged against minimax (only when no deeper record was reused), and the repetition stack length compared (rep=)",
+    "rule": "for small-tree positions: a deadline at EVERY node count 1..total (exhaustive when the completed search has <= 120 nodes, sampled otherwise), expressed both as node budget and as poll index; 1-3 interrupted searches, then every record left in the table for the root and its successors audited against minimax (s.ttclaim), a later completed search judged against minimax (only when no deeper record was reused), and the repetition stack length compared (rep=); black-box with REAL clock budgets: go movetime 0/1/3 or a clock under the reserve, then go depth d in the same process must complete all d iterations like a fresh process",
     "trusted_base": SEARCH_TB + [HASHINJ],
     "assumptions": [HASHINJ, "QFinite", "the wall clock is abstracted to 'some poll is the first to return true' (every monotone clock is such an oracle)"],
     "finding_key": lambda sf: None,
